@@ -1,4 +1,4 @@
-#!/usr/bin/env python3
+#!/opt/veriftools/pyvenv/bin/python3
 """Regenerates /verif/MANIFEST.json from tools/manifest_src.json + the list of
 plans known to the driver, and validates it against the schema."""
 import json, subprocess, sys
